@@ -70,6 +70,7 @@ func c10R8(h H) {
 		{"a file of addresses imported in the address line", "a.host,\nb.host {\n log out\n}", "import f.conf\nb.host {\n log out\n}", map[string]string{"/etc/f.conf": "a.host,"}, ""},
 		{"a token with a line break inside, followed by an argument on its line", "host {\n log a⏎b c\n gzip foo\n}", "(s) {\n log a⏎b c\n}\nhost {\n import s\n gzip foo\n}", nil, `{"host": gzip→["gzip" "foo"]; log→["log" "a\nb" "c"]}`},
 		{"a token with a line break inside ends its line", "host {\n log a⏎b\n gzip foo\n}", "(s) {\n gzip foo\n}\nhost {\n log a⏎b\n import s\n}", nil, `{"host": gzip→["gzip" "foo"]; log→["log" "a\nb"]}`},
+		{"an environment value with a line break, followed by an argument on its line", "host {\n log {$NL} c\n gzip foo\n}", "(s) {\n log {$NL} c\n}\nhost {\n import s\n gzip foo\n}", nil, `{"host": gzip→["gzip" "foo"]; log→["log" "a\nb" "c"]}`},
 		{"repeated directive keeps its order", "host {\n header /a X 1\n gzip foo\n header /b Y 2\n}", "(s) {\n gzip foo\n header /b Y 2\n}\nhost {\n header /a X 1\n import s\n}", nil, ""},
 	}
 	parse := func(text string, files map[string]string) (string, string) {
@@ -81,6 +82,9 @@ func c10R8(h H) {
 		env.ext = func(callee string, args []aval) (aval, bool) {
 			switch {
 			case callee == "os.Getenv":
+				if k, ok := args[0].(astr); ok && k == "NL" {
+					return astr("a\nb"), true
+				}
 				return astr(""), true
 			case callee == "path/filepath.Abs":
 				if s, ok := args[0].(astr); ok {
@@ -193,6 +197,18 @@ func c10R8(h H) {
 		if bad != "" {
 			break
 		}
+	}
+	// the one case of this kind the tree is known to get wrong, as an obligation of its own
+	{
+		got, e := parse("host {\n log {$NL}\n gzip foo\n}", nil)
+		want := `{"host": gzip→["gzip" "foo"]; log→["log" "a\nb"]}`
+		why := ""
+		if e != "" {
+			why = "`host { ⏎ log {$NL} ⏎ gzip foo ⏎}` with NL=\"a\\nb\": " + e
+		} else if got != want {
+			why = "`host { ⏎ log {$NL} ⏎ gzip foo ⏎}` with NL=\"a\\nb\" parses to " + got + ", the syntax says " + want + " (the line after the value is taken for its arguments)"
+		}
+		r.Check(why == "", "R8", "casketfile.(*parser).parseAll/env-value-with-line-break", fn.Pos(), "an environment value that holds a line break does not change which line the following tokens are on", why)
 	}
 	r.Check(bad == "", "R8", "casketfile.(*parser).parseAll/inline-snippet-import-table", fn.Pos(), "a configuration means the same whether its lines are written inline, in a snippet or in an imported file", fmt.Sprintf("%d configurations parsed", nrun), bad)
 }
